@@ -853,13 +853,23 @@ class Interp:
                 rng = list(rng)
             if isinstance(rng, (set, frozenset)):
                 rng = sorted(rng)
-            if not isinstance(rng, (list, tuple)):
+            if not isinstance(rng, (list, tuple)) and not (isinstance(rng, dict) and not isinstance(rng, Obj)):
                 raise OutOfFragment('range-for over non-list')
             lv = S[n['loopvar']]
             d = lv['decls'][0]
+            if isinstance(rng, dict) and not isinstance(rng, Obj):
+                rng = [Obj(first=k_, second=v_) for k_, v_ in rng.items()]
             for x in rng:
                 env[d['did']] = x
                 env[d['name']] = x
+                bs = d.get('bindings', [])
+                if bs:
+                    parts = [x[kk] for kk in x if not kk.startswith('__')] if isinstance(x, Obj) else list(x) if isinstance(x, (tuple, list)) else None
+                    if parts is None or len(parts) != len(bs):
+                        raise OutOfFragment('structured binding in range-for at %s' % fn.loc(n))
+                    for b, pv in zip(bs, parts):
+                        env[b['did']] = pv
+                        env[b['name']] = pv
                 try:
                     self.exec(fn, S[n['body']], env)
                 except _Break:
